@@ -372,7 +372,7 @@ def run(ctx):
         extra = len(a) - len(b)
         if extra > 0:
             for at, own in allowed.items():
-                if a[:at] == b[:at] and a[at + extra:] == b[at:]:
+                if a[:at] == b[:at] and a[at + extra:] == b[at:] and a[at:at + 2] == b": ":
                     hint, where = a[at:at + extra].decode("utf-8", "replace"), own
                     break
         if hint is None or not hint.startswith(": "):
